@@ -6,8 +6,9 @@ cd /verif
 export GOFLAGS=-mod=mod GOPROXY=off
 export GOCACHE=${GOCACHE:-/verif/cache/gocache}
 mkdir -p /verif/bin /verif/out /verif/cache
+BIN=/verif/bin/vcheck-$$; trap 'rm -f $BIN' EXIT
 ID=${1:?id}; TIER=${2:-${VERIF_TIER:-quick}}
-if ! go build -o /verif/bin/vcheck ./cmd/vcheck 2>/verif/out/build.log; then
+if ! go build -o $BIN ./cmd/vcheck 2>/verif/out/build.log; then
   # a tree that does not compile is not a property violation; report as harness error
   cat /verif/out/build.log >&2
   echo "HARNESS-ERROR build failed" >&2
@@ -15,5 +16,5 @@ if ! go build -o /verif/bin/vcheck ./cmd/vcheck 2>/verif/out/build.log; then
 fi
 # workers inherit the address-space cap: a runaway allocation kills one worker (reported), not the sandbox
 ulimit -v ${VERIF_ULIMIT_KB:-12000000} 2>/dev/null || true
-if [ "$ID" = replay ]; then exec /verif/bin/vcheck replay "$TIER"; fi
-exec /verif/bin/vcheck run "$ID" "$TIER"
+if [ "$ID" = replay ]; then $BIN replay "$TIER"; exit $?; fi
+$BIN run "$ID" "$TIER"; exit $?
